@@ -97,11 +97,15 @@ def check_errors_paths(res, errs, rec):
     return out
 
 
-def judge_fault(s, g, tree, fault, st, default_ns, use_lxml, xsd):
+def judge_fault(s, g, tree, fault, st, default_ns, use_lxml, xsd, switch=False):
     out = []
     kind, path, detail = fault
     damaged = dg.apply_fault(tree, fault)
-    doc = dg.ser(damaged, default_ns=default_ns)
+    # switch: some inner elements declare a new prefix for the target namespace and rebind the root's prefix
+    sp = {p for _, p in dg.nodes(damaged) if p and len(p) <= 2 and p[-1] % 2 == 0} if switch else None
+    doc = dg.ser(damaged, default_ns=default_ns, switch_paths=sp)
+    if switch and 'urn:rebound' in doc:
+        st.cls('inner_namespace_scopes')
     st.case()
 
     def rec(k, expected, observed, classes):
@@ -144,14 +148,42 @@ def judge_fault(s, g, tree, fault, st, default_ns, use_lxml, xsd):
     return out
 
 
+REC_XSD = ('<xs:schema xmlns:xs="http://www.w3.org/2001/XMLSchema"><xs:complexType name="S"><xs:sequence>'
+           '<xs:element name="head" minOccurs="0"><xs:complexType><xs:sequence><xs:element name="num" type="xs:int" '
+           'maxOccurs="unbounded"/></xs:sequence></xs:complexType></xs:element><xs:element name="num" type="xs:int" '
+           'minOccurs="0" maxOccurs="unbounded"/><xs:element name="section" type="S" minOccurs="0" maxOccurs="unbounded"/>'
+           '</xs:sequence><xs:attribute name="id" type="xs:int"/></xs:complexType><xs:element name="section" type="S"/>'
+           '</xs:schema>')
+
+
+def rec_tree(rnd, depth=0):
+    """A recursive document: an element's tag also occurs on its parent and deeper inside earlier siblings."""
+    e = ET.Element('section', {'id': str(rnd.randint(1, 99))} if rnd.random() < .5 else {})
+    if rnd.random() < .5:
+        h = ET.SubElement(e, 'head')
+        for _ in range(rnd.randint(1, 2)):
+            ET.SubElement(h, 'num').text = str(rnd.randint(0, 9))
+    for _ in range(rnd.randint(0, 2)):
+        ET.SubElement(e, 'num').text = str(rnd.randint(0, 9))
+    if depth < 3:
+        for _ in range(rnd.randint(0, 3) if depth else rnd.randint(2, 3)):
+            e.append(rec_tree(rnd, depth + 1))
+    return e
+
+
 def judge_corpus(st):
     """Path clause on corpus documents damaged generically (no model knowledge: only clause (a))."""
     out = []
     import copy
+    import random as _random
+    items = []
     for xsd, xml in ((os.path.join(CASES, 'vehicles', 'vehicles.xsd'), os.path.join(CASES, 'vehicles', 'vehicles.xml')),
                      (os.path.join(CASES, 'collection', 'collection.xsd'), os.path.join(CASES, 'collection', 'collection.xml'))):
-        s = xmlschema.XMLSchema10(xsd)
-        root = ET.parse(xml).getroot()
+        items.append((xml, xmlschema.XMLSchema10(xsd), ET.parse(xml).getroot()))
+    rs = xmlschema.XMLSchema10(REC_XSD)
+    for k in range(3):
+        items.append(('recursive%d.xml' % k, rs, rec_tree(_random.Random(k))))
+    for xml, s, root in items:
         n = len(list(root.iter()))
         for i in range(n):
             for fault in ('extra_child', 'drop_child', 'bad_text', 'extra_attr', 'bad_attr'):
@@ -196,7 +228,7 @@ def run_shard(desc):
     if desc[0] == 'corpus':
         for r in judge_corpus(st):
             core.report(st, PROPERTY, r)
-        st.sample({'corpus': ['vehicles.xml', 'collection.xml'], 'damages': 'generic, every node'})
+        st.sample({'corpus': ['vehicles.xml', 'collection.xml', '3 recursive section-in-section documents'], 'damages': 'generic, every node'})
         return st
     _, k, tier, seed = desc
     n = 120 if tier == "thorough" else 30
@@ -214,10 +246,11 @@ def run_shard(desc):
             faults = rnd.sample(faults, min(40, len(faults)))
         default_ns = rnd.random() < .4
         use_lxml = rnd.random() < .3
+        switch = rnd.random() < .4
         st_.sample({'doc': dg.ser(tree)[:250], 'faults': len(faults)}, cap=2)
         recs = []
         for f in faults:
-            recs += judge_fault(s, g, tree, f, st_, default_ns, use_lxml, xsd)
+            recs += judge_fault(s, g, tree, f, st_, default_ns, use_lxml, xsd, switch)
         return recs
     core.hyp_drive(st, PROPERTY, hst.randoms(use_true_random=False), body, n, core.derive_seed(seed, 'C19', k))
     return st
